@@ -181,6 +181,7 @@ type concCall struct {
 	Spec   string          `json:"spec,omitempty"` // fixture path relative to /repo
 	Flag   bool            `json:"flag,omitempty"`
 	Rexp   *rexpOp         `json:"rexp,omitempty"`
+	NilSch bool            `json:"nil_schema,omitempty"` // oneshot: validate.AgainstSchema(nil, ...), accepted by the API
 }
 
 type concCase struct {
@@ -240,7 +241,7 @@ func specOutcome(rel string, cont bool) (o callOutcome) {
 func runConcCall(c *concCall, shared []*validate.SchemaValidator) callOutcome {
 	switch c.Kind {
 	case "oneshot":
-		pc := poolCall{Kind: "oneshot", Schema: c.Schema}
+		pc := poolCall{Kind: "oneshot", Schema: c.Schema, NilSch: c.NilSch}
 		return runCall(&pc, true, nil)
 	case "param":
 		k := "param"
